@@ -1,10 +1,8 @@
 (* C11 — traversal accepts exactly well-formed adjacency lists. Statements only.
-   Proved here: success implies well-formedness; every ill-formed list is refused with an error that names a real
-   defect. The remaining direction (every well-formed list is accepted, up to the panic classes of C06) is part of
-   the lock-step development (C12) and is added to this file when that lands; until then it is checked on the
-   implementation's outputs only. *)
+   Success implies well-formedness; every ill-formed list is refused with an error that names a real defect; every
+   well-formed list is accepted, up to the two panic classes of C06 (unimplemented inversion, 100 closures open). *)
 From Coq Require Import List NArith Bool.
-Require Import P.Model.Base P.Model.Walk P.Spec.Graph P.Proofs.C11.
+Require Import P.Model.Base P.Model.Walk P.Spec.Graph P.Proofs.C11 P.Proofs.C12_Final.
 
 Theorem C11_success_implies_well_formed : forall g : list atom, fst (walk g) = WOk -> wf g = true.
 Proof. exact walk_ok_wf. Qed.
@@ -13,7 +11,10 @@ Theorem C11_ill_formed_refused_with_real_defect : forall g : list atom, wf g = f
 Proof. exact walk_rejects_ill_formed. Qed.
 Theorem C11_validation_is_well_formedness : forall g : list atom, validate g = None <-> wf g = true.
 Proof. exact validate_iff_wf. Qed.
+Theorem C11_well_formed_accepted : forall g : list atom, wf g = true -> safe_graph g -> fst (walk g) = WOk \/ fst (walk g) = WPanic 3.
+Proof. exact wf_accepted. Qed.
 
+Print Assumptions C11_well_formed_accepted.
 Print Assumptions C11_success_implies_well_formed.
 Print Assumptions C11_ill_formed_refused_with_real_defect.
 Print Assumptions C11_validation_is_well_formedness.
